@@ -42,10 +42,11 @@ worker() {
     local desc; desc=$(python3 "$ROOT/tools/mutgen.py" "$D/repo" --apply "$i") || continue
     local file; file=$(echo "$desc" | python3 -c "import json,sys; print(json.load(sys.stdin)['file'])")
     local status="" by="" sig="" notes=""
-    if ! (cd "$D/verif/harness" && cargo build --release --offline >"$D/build.log" 2>&1); then
+    # the repository's tests first (cheap, kills most mutants), the harness is only built for the others
+    if ! (cd "$D/repo" && timeout 600 cargo test --offline --lib --tests >"$D/test.log" 2>&1); then
+      if grep -q "could not compile" "$D/test.log"; then status="does-not-compile"; else status="killed-by-repo-tests"; fi
+    elif ! (cd "$D/verif/harness" && cargo build --release --offline >"$D/build.log" 2>&1); then
       status="does-not-compile"
-    elif ! (cd "$D/repo" && timeout 600 cargo test --offline --lib --tests >"$D/test.log" 2>&1); then
-      status="killed-by-repo-tests"
     else
       for scale in 25 100; do
         for id in $(order_for "$file"); do
